@@ -403,6 +403,9 @@ def run(ctx: core.Run):
     # ---------------- containers
     containers(ctx, drv, rng, impls, quick)
 
+    # ---------------- histories: the laws over SEQUENCES and INTERLEAVINGS of calls
+    histories(ctx, rng, impls, quick)
+
     # ---------------- search: streams of independent encoders must decode to the pixels
     n_spec = 0
     for (d, c, w, h, depth, v, tag) in cases:
@@ -483,6 +486,193 @@ def run(ctx: core.Run):
     ctx.extra["phase_wall_s"] = round(time.time() - t_budget, 1)
     if ctx.tier == "thorough":
         ctx.recheck(["PsdVerif.Props.C04"])
+
+
+# ---- laws over histories ------------------------------------------------------------------------
+def _packbits_spec_decode(e: bytes):
+    out, i = bytearray(), 0
+    while i < len(e):
+        hd = e[i]
+        i += 1
+        if hd < 128:
+            if i + hd + 1 > len(e):
+                return None
+            out += e[i:i + hd + 1]
+            i += hd + 1
+        elif hd > 128:
+            if i >= len(e):
+                return None
+            out += bytes([e[i]]) * (257 - hd)
+            i += 1
+    return bytes(out)
+
+
+def spec_reading(stream: bytes, codec, w, h, depth, version):
+    """What a reader written from the Adobe specification gets out of `stream` (None: not a conforming stream).
+    Independent of the library and of whatever the library did before."""
+    try:
+        if codec == RAW:
+            return bytes(stream)
+        if codec == ZIP:
+            return zlib.decompress(stream)
+        if codec == ZIPP:
+            return spec_pred_decode(zlib.decompress(stream), w, h, depth)
+        cw = 2 * version
+        if len(stream) < cw * h:
+            return None
+        counts = [int.from_bytes(stream[k * cw:(k + 1) * cw], "big") for k in range(h)]
+        pos = cw * h
+        if sum(counts) != len(stream) - pos:
+            return None
+        out = bytearray()
+        for c in counts:
+            row = _packbits_spec_decode(stream[pos:pos + c])
+            pos += c
+            if row is None or len(row) != row_bytes(w, depth):
+                return None
+            out += row
+        return bytes(out)
+    except Exception:  # noqa
+        return None
+
+
+def spec_writing(d: bytes, codec, w, h, depth, version):
+    """A conforming stream for the raster, produced without the library."""
+    if codec == RAW:
+        return d
+    if codec == ZIP:
+        return zlib.compress(d)
+    if codec == ZIPP:
+        return zlib.compress(spec_pred_encode(d, w, h, depth))
+    return spec_stream(d, w, h, depth, version, packbits_greedy)
+
+
+HIST_SHAPES = [(1, 6), (6, 1), (2, 3), (3, 2), (1, 4), (4, 1), (2, 2), (2, 6), (6, 2), (3, 4), (4, 3), (12, 1), (1, 12),
+               (4, 6), (6, 4), (12, 2), (2, 12)]
+
+
+def histories(ctx, rng, impls, quick):
+    """compress A, compress B, THEN decompress A (and B): every ordered pair of configurations (shape, depth) from a
+    small set that contains, for every member, a transposed shape of equal area and rasters of equal byte length at
+    the other depths; every codec; each compressed stream is also read by the independent specification reader and a
+    stream written by the independent specification writer is decoded - whatever was processed before. Then whole
+    batches: all rasters of a depth written, then all read back (in order and in reverse), at the codec level and
+    through ChannelData objects."""
+    import psd_tools.compression as C
+    from psd_tools.constants import Compression
+    from psd_tools.psd.layer_and_mask import ChannelData
+
+    confs = [(w, h, depth) for depth in (8, 16, 32) for (w, h) in HIST_SHAPES]
+    confs += [(8, 3, 1), (16, 3, 1), (24, 1, 1), (24, 2, 1)]
+    rasters = {}
+    for k, (w, h, depth) in enumerate(confs):
+        n = row_bytes(w, depth) * h
+        rasters[(w, h, depth)] = content(rng, "noise" if k % 3 else "ramps", n)
+    n_hist = 0
+
+    def step(hist, op, codec, w, h, depth, version, payload):
+        hist.append(dict(op=op, codec=codec, w=w, h=h, depth=depth, version=version, data=hx(payload)))
+        f = C.compress if op == "compress" else C.decompress
+        return call(f, payload, Compression(codec), w, h, depth, version)
+
+    def bad(codec, cf, version, what, msg, hist, observed, expected, name):
+        w, h, depth = cf
+        ctx.fail(classify(codec, w, h, depth, version, "history/" + what), msg + f" ({name})",
+                 dict(history=list(hist), failing_step=len(hist) - 1, impl=name), observed, expected)
+
+    pairs = [(a, b) for a in confs for b in confs if a != b]
+    for (a, b) in pairs:
+        da, db = rasters[a], rasters[b]
+        for codec in (RAW, RLE, ZIP, ZIPP):
+            if codec == ZIPP and 1 in (a[2], b[2]):
+                continue
+            version = 1 + (n_hist % 2)
+            for name, mod in (impls if codec == RLE else impls[:1]):
+                n_hist += 1
+                ctx.count(("history", a, b, codec, version, name))
+                hist = []
+                with rle_impl(mod):
+                    ca = step(hist, "compress", codec, *a, version, da)
+                    if ca[0] != "ok":
+                        continue
+                    cb = step(hist, "compress", codec, *b, version, db)
+                    if cb[0] != "ok":
+                        continue
+                    if spec_reading(cb[1], codec, *b, version) != db:
+                        bad(codec, b, version, "stream-not-the-specification",
+                            "after compressing another raster, compress produces a stream the specification's reader does not "
+                            "expand to the pixels", hist, short(cb[1]), short(db), name)
+                    if spec_reading(ca[1], codec, *a, version) != da:
+                        bad(codec, a, version, "stream-not-the-specification", "compress produces a stream the specification's "
+                            "reader does not expand to the pixels", hist[:1], short(ca[1]), short(da), name)
+                    ra = step(hist, "decompress", codec, *a, version, ca[1])
+                    if ra != ("ok", da):
+                        bad(codec, a, version, "roundtrip-across-another-call",
+                            "compress A, compress B, decompress A: A does not come back", hist, _short_r(ra), short(da), name)
+                    rb = step(hist, "decompress", codec, *b, version, cb[1])
+                    if rb != ("ok", db):
+                        bad(codec, b, version, "roundtrip-across-another-call",
+                            "compress A, compress B, decompress A, decompress B: B does not come back", hist, _short_r(rb), short(db), name)
+                    sa = spec_writing(da, codec, *a, version)
+                    if sa is not None:
+                        rs = step(hist, "decompress", codec, *a, version, sa)
+                        if rs != ("ok", da):
+                            bad(codec, a, version, "spec-stream-after-other-calls",
+                                "a conforming stream does not decode to the pixels after other rasters were processed", hist,
+                                _short_r(rs), short(da), name)
+    ctx.extra["history_pairs"] = n_hist
+    # ---- whole batches: everything written, then everything read
+    n_batch = 0
+    for depth in (1, 8, 16, 32):
+        group = [cf for cf in confs if cf[2] == depth]
+        for codec in (RAW, RLE, ZIP, ZIPP):
+            if codec == ZIPP and depth == 1:
+                continue
+            for version in (1, 2):
+                for name, mod in (impls if codec == RLE else impls[:1]):
+                    with rle_impl(mod):
+                        hist, streams = [], []
+                        for cf in group:
+                            streams.append(step(hist, "compress", codec, *cf, version, rasters[cf]))
+                        order = list(range(len(group)))
+                        for idxs in (order, order[::-1]):
+                            for k in idxs:
+                                if streams[k][0] != "ok":
+                                    continue
+                                n_batch += 1
+                                r = step(hist, "decompress", codec, *group[k], version, streams[k][1])
+                                if r != ("ok", rasters[group[k]]):
+                                    # shrink to: all writes, this read
+                                    bad(codec, group[k], version, "all-written-then-all-read",
+                                        "all rasters compressed, then read back: one does not come back", hist,
+                                        _short_r(r), short(rasters[group[k]]), name)
+                        # through container objects: one ChannelData per channel, all set, then all got
+                        objs = [ChannelData(compression=codec) for _ in group]
+                        ok = []
+                        for o, cf in zip(objs, group):
+                            ok.append(call(lambda: (o.set_data(rasters[cf], *cf, version), b"")[1])[0] == "ok")
+                        for o, cf, fine in zip(objs, group, ok):
+                            if not fine:
+                                continue
+                            n_batch += 1
+                            g = call(o.get_data, *cf, version)
+                            if g != ("ok", rasters[cf]):
+                                ctx.fail(classify(codec, *cf, version, "history/channels-all-set-then-all-got"),
+                                         f"ChannelData.set_data on every channel, then get_data on every channel: one differs ({name})",
+                                         dict(history=[dict(op="ChannelData.set_data", codec=codec, w=c[0], h=c[1], depth=c[2],
+                                                            version=version, data=hx(rasters[c])) for c in group]
+                                              + [dict(op="ChannelData.get_data", index=group.index(cf))], impl=name),
+                                         _short_r(g), short(rasters[cf]))
+                            elif spec_reading(o.data, codec, *cf, version) != rasters[cf]:
+                                ctx.fail(classify(codec, *cf, version, "history/channel-stream-not-the-specification"),
+                                         f"ChannelData.set_data on every channel: a stored stream is not what the specification's reader expands to the pixels ({name})",
+                                         dict(history=[dict(op="ChannelData.set_data", codec=codec, w=c[0], h=c[1], depth=c[2],
+                                                            version=version, data=hx(rasters[c])) for c in group[:group.index(cf) + 1]],
+                                              impl=name), short(o.data), short(rasters[cf]))
+    ctx.count(("history-batches",), n=n_batch)
+    ctx.extra["history_batch_reads"] = n_batch
+    ctx.hist("history", "pairs", n_hist)
+    ctx.hist("history", "batch reads", n_batch)
 
 
 def _short_r(o):
@@ -625,6 +815,29 @@ def replay(ctx, data):
     from psd_tools.constants import Compression
     inp = data.get("input") or {}
     print("replaying", data.get("signature"))
+    if "history" in inp:
+        mod = rle_py
+        if inp.get("impl") == "pyx":
+            e, dd, _ = pyx_emul.load(COMP / "_rle.pyx")
+            mod = types.SimpleNamespace(encode=e, decode=dd)
+        from psd_tools.psd.layer_and_mask import ChannelData
+        objs = []
+        with rle_impl(mod):
+            for k, st in enumerate(inp["history"]):
+                if st["op"] in ("compress", "decompress"):
+                    f = C.compress if st["op"] == "compress" else C.decompress
+                    o = call(f, unhx(st["data"]), Compression(st["codec"]), st["w"], st["h"], st["depth"], st["version"])
+                elif st["op"] == "ChannelData.set_data":
+                    cd = ChannelData(compression=st["codec"])
+                    objs.append((cd, st))
+                    o = call(lambda: (cd.set_data(unhx(st["data"]), st["w"], st["h"], st["depth"], st["version"]), cd.data)[1])
+                else:
+                    cd, s0 = objs[st["index"]]
+                    o = call(cd.get_data, s0["w"], s0["h"], s0["depth"], s0["version"])
+                    print("   expected", short(unhx(s0["data"])))
+                print(k, st["op"], {x: st[x] for x in st if x not in ("data", "op")}, "->", _short_r(o))
+        print("expected:", data.get("expected"))
+        return 0
     if not {"data", "codec", "w", "h", "depth", "version"} <= set(inp):
         print("input is not a codec-level case:", json.dumps(inp)[:300])
         return 0
